@@ -42,61 +42,72 @@ package method_evaluator
 //@ # the callees' own panics are not part of this claim)
 //@ func (*ti/eval/method_evaluator.replaceArraystrategy).evaluate
 //@   safederef[C04] base.GlobT
+//@   globalstore[C22] base.GlobT m.parser.LspTargetRow == m.parser.ErrorRow
 //@   safe idx,slice
 //@   inline 2 1
 //@   witness idx#0 "a = [1]\na.replace"
 
 //@ func (*ti/eval/method_evaluator.addArrayStrategy).evaluate
 //@   safederef[C04] base.GlobT
+//@   globalstore[C22] base.GlobT m.parser.LspTargetRow == m.parser.ErrorRow
 //@   safe idx,slice
 //@   inline 2 1
 //@   witness idx#0 "a = [1]\na + "
 
 //@ func (*ti/eval/method_evaluator.arrayAppendStrategy).evaluate
 //@   safederef[C04] base.GlobT
+//@   globalstore[C22] base.GlobT m.parser.LspTargetRow == m.parser.ErrorRow
 //@   safe idx,slice
 //@   inline 2 1
 
 //@ func (*ti/eval/method_evaluator.concatArraystrategy).evaluate
 //@   safederef[C04] base.GlobT
+//@   globalstore[C22] base.GlobT m.parser.LspTargetRow == m.parser.ErrorRow
 //@   safe idx,slice
 //@   inline 2 1
 
 //@ func (*ti/eval/method_evaluator.unshiftArraystrategy).evaluate
 //@   safederef[C04] base.GlobT
+//@   globalstore[C22] base.GlobT m.parser.LspTargetRow == m.parser.ErrorRow
 //@   safe idx,slice
 //@   inline 2 1
 
 //@ func (*ti/eval/method_evaluator.sliceArrayStrategy).evaluate
 //@   safederef[C04] base.GlobT
+//@   globalstore[C22] base.GlobT m.parser.LspTargetRow == m.parser.ErrorRow
 //@   requires m != nil && wfP(m.parser)
 //@   safe idx,slice
 //@   inline 2 1
 
 //@ func (*ti/eval/method_evaluator.hashMergeStrategy).evaluate
 //@   safederef[C04] base.GlobT
+//@   globalstore[C22] base.GlobT m.parser.LspTargetRow == m.parser.ErrorRow
 //@   safe idx,slice
 //@   inline 2 1
 //@   witness idx#0 "h = {a: 1}\nh.merge do |a|\nend"
 
 //@ func (*ti/eval/method_evaluator.hashDestructionMergeStrategy).evaluate
 //@   safederef[C04] base.GlobT
+//@   globalstore[C22] base.GlobT m.parser.LspTargetRow == m.parser.ErrorRow
 //@   safe idx,slice
 //@   inline 2 1
 //@   witness idx#0 "h = {a: 1}\nh.merge! do |k, a, b|\n  a\nend"
 
 //@ func (*ti/eval/method_evaluator.hashShiftStrategy).evaluate
 //@   safederef[C04] base.GlobT
+//@   globalstore[C22] base.GlobT m.parser.LspTargetRow == m.parser.ErrorRow
 //@   safe idx,slice
 //@   inline 2 1
 
 //@ func (*ti/eval/method_evaluator.kernelYieldStrategy).evaluate
 //@   safederef[C04] base.GlobT
+//@   globalstore[C22] base.GlobT m.parser.LspTargetRow == m.parser.ErrorRow
 //@   safe idx,slice
 //@   inline 2 1
 
 //@ func (*ti/eval/method_evaluator.kernelPrintStrategy).evaluate
 //@   safederef[C04] base.GlobT
+//@   globalstore[C22] base.GlobT m.parser.LspTargetRow == m.parser.ErrorRow
 //@   safe idx,slice
 //@   inline 2 1
 
@@ -134,14 +145,17 @@ package method_evaluator
 //@   sitesonly
 //@   inline 2 1
 //@   safederef[C04] base.GlobT
+//@   globalstore[C22] base.GlobT m.parser.LspTargetRow == m.parser.ErrorRow
 //@ func (*ti/eval/method_evaluator.instanceMethodStrategy).evaluate
 //@   sitesonly
 //@   inline 2 1
 //@   safederef[C04] base.GlobT
+//@   globalstore[C22] base.GlobT m.parser.LspTargetRow == m.parser.ErrorRow
 //@ func (*ti/eval/method_evaluator.topLevelMethodStrategy).evaluate
 //@   sitesonly
 //@   inline 2 1
 //@   safederef[C04] base.GlobT
+//@   globalstore[C22] base.GlobT m.parser.LspTargetRow == m.parser.ErrorRow
 //@ # (the lookups behind the hooks hand back a method whenever they report no error)
 //@ func (*ti/eval/method_evaluator.classMethodStrategy).getRequiredValues
 //@   inline 6 1
